@@ -192,8 +192,23 @@ pub fn run_case(c: &Value) -> Value {
         }
         // typed command lists: vector of one command type, or tuples of arity 1..8, with any number of frames
         _ => {
-            let frames: Vec<Frame> = c["frames"].as_array().unwrap().iter().filter_map(frame_from).collect();
-            let nframes = frames.len();
+            // the reply as the server sends it for a list (frames separated by list_OK; a single command's reply is bare),
+            // decoded by the real protocol layer in ONE receive: what reaches the typed layer is what a client would get
+            let specs = c["frames"].as_array().unwrap();
+            let mut body = vec![];
+            for f in specs {
+                body.extend_from_slice(&encode_frame(f));
+                if specs.len() != 1 {
+                    body.extend_from_slice(b"list_OK\n");
+                }
+            }
+            body.extend_from_slice(b"OK\n");
+            let frames: Vec<Frame> = match if specs.is_empty() { None } else { receive_bytes(body) } {
+                Some(r) if r.is_success() => r.into_iter().filter_map(|f| f.ok()).collect(),
+                _ => vec![],
+            };
+            // (lines the protocol layer does not accept: nothing reaches the typed layer; reported as a count mismatch)
+            let nframes = if frames.is_empty() && !specs.is_empty() && specs.len() != 1 { usize::MAX >> 8 } else { frames.len() };
             let arity = c["arity"].as_u64().unwrap_or(1) as usize;
             let shape = c["shape"].as_str().unwrap_or("vec");
             let r = catch_unwind(AssertUnwindSafe(|| list_convert(shape, arity, frames)));
@@ -221,6 +236,23 @@ fn list_convert(shape: &str, arity: usize, frames: Vec<Frame>) -> Result<Value, 
     let v_up = |x: u64| json!(["update", n(x)]);
     let v_ad = |x: cmds::SongId| json!(["add", n(x.0)]);
     let v_ch = |x: Vec<String>| json!(["channels", x.iter().map(|s| s.as_bytes().to_vec()).collect::<Vec<_>>()]);
+    let aa = || cmds::AlbumArt::new("u");
+    let ae = || cmds::AlbumArtEmbedded::new("u");
+    let v_art = |a: Option<res::AlbumArt>| json!(["art", art_json(a)]);
+    if shape == "arts" {
+        // binary-bearing commands inside a list: sticker get, art, art, embedded art, update, art, sticker get, embedded art
+        return Ok(match arity {
+            2 => { let (a, b) = (sg(), aa()).responses(frames)?; json!({"items": [v_sg(a), v_art(b)]}) }
+            3 => { let (a, b, c) = (sg(), aa(), aa()).responses(frames)?; json!({"items": [v_sg(a), v_art(b), v_art(c)]}) }
+            4 => { let (a, b, c, d) = (sg(), aa(), aa(), ae()).responses(frames)?; json!({"items": [v_sg(a), v_art(b), v_art(c), v_art(d)]}) }
+            5 => { let (a, b, c, d, e) = (sg(), aa(), aa(), ae(), up()).responses(frames)?; json!({"items": [v_sg(a), v_art(b), v_art(c), v_art(d), v_up(e)]}) }
+            6 => { let (a, b, c, d, e, f) = (sg(), aa(), aa(), ae(), up(), aa()).responses(frames)?; json!({"items": [v_sg(a), v_art(b), v_art(c), v_art(d), v_up(e), v_art(f)]}) }
+            7 => { let (a, b, c, d, e, f, g) = (sg(), aa(), aa(), ae(), up(), aa(), sg()).responses(frames)?;
+                   json!({"items": [v_sg(a), v_art(b), v_art(c), v_art(d), v_up(e), v_art(f), v_sg(g)]}) }
+            _ => { let (a, b, c, d, e, f, g, h) = (sg(), aa(), aa(), ae(), up(), aa(), sg(), ae()).responses(frames)?;
+                   json!({"items": [v_sg(a), v_art(b), v_art(c), v_art(d), v_up(e), v_art(f), v_sg(g), v_art(h)]}) }
+        });
+    }
     if shape == "vec" {
         let cmds_v: Vec<cmds::StickerGet<'_>> = (0..arity).map(|_| sg()).collect();
         let wire_some = cmds_v.command_list().is_some();
